@@ -79,6 +79,18 @@ def generate(seed, tier, index):
             if cfg['sweeper']['params'].get('do_coll_update'):
                 cfg['sweeper']['params'].pop('do_coll_update')
                 cfg['sweeper']['params']['quad_type'] = 'RADAU-RIGHT'
+    elif c < 0.45:
+        # real adaptive SDC runs (no script): Adaptivity with the standard or the linearized embedded estimate, time-parallel
+        for _ in range(20):
+            sc = workloads.c09_real(r)
+            if sc['config']['cc'][0][0] == 'Adaptivity':
+                break
+        cfg = sc['config']
+        cfg['P'] = r.randint(1, 4)
+        cfg['hooks'] = ['LogSolution']
+        cfg['cc'][0][1]['embedded_error_flavor'] = r.choice(['standard', 'linearized', 'linearized'])
+        cfg['cc'][0][1].setdefault('dt_min', cfg['level']['dt'] / 128)
+        cfg['run']['Tend'] = cfg['run']['t0'] + min(cfg['run']['Tend'] - cfg['run']['t0'], 10 * cfg['level']['dt'])
     elif c < 0.75:
         sc = physics.gen_config(r, allow_faults=False)
         cfg = sc['config']
